@@ -111,9 +111,17 @@ pub fn oracle(ctx: &mut Ctx) {
     let mut rng = Rng::new(ctx.seed ^ 0x0C11);
     let mut st = Stats::default();
     for i in 0..ctx.n {
-        let &(ct, depth) = rng.choose(&LEGAL_PAIRS);
-        let (w, h) = gen_dims(&mut rng, if ctx.tier_thorough { 24 } else { 12 });
-        let (mut g, info) = gen_grid(&mut rng, ct, depth, w, h);
+        let &(mut ct, mut depth) = rng.choose(&LEGAL_PAIRS);
+        let (mut w, mut h) = gen_dims(&mut rng, if ctx.tier_thorough { 24 } else { 12 });
+        let (mut g, mut info) = gen_grid(&mut rng, ct, depth, w, h);
+        // one case in twenty: an indexed image with a colour isolated within its Adam7 pass, to be written interlaced at a
+        // preset that tries the co-occurrence palette orders
+        let pass_isolated = rng.chance(1, 20);
+        if pass_isolated {
+            let (g2, i2) = crate::gen::gen_pass_isolated(&mut rng);
+            ct = 3; depth = 8; w = g2.w; h = g2.h;
+            g = g2; info = i2;
+        }
         if matches!(ct, 2 | 6) && rng.chance(1, 2) {
             let c = channels(ct);
             for p in g.samples.chunks_mut(c) {
@@ -128,6 +136,12 @@ pub fn oracle(ctx: &mut Ctx) {
         let img = g.pack(false);
         let mut opts = gen_opts(&mut rng, Profile::Any, ctx.tier_thorough);
         opts.idat_recoding = true;
+        if pass_isolated {
+            opts = HOpts::from_preset(*rng.choose(&[3u8, 4]));
+            opts.interlace = Some(1);
+            if let Ok(_) = opts.deflate { opts.deflate = Ok(*rng.choose(&[8u8, 12])); }
+            st.count("pass_isolated_cases");
+        }
         st.count("cases");
         st.count(&format!("in_ct{}d{}", ct, depth));
         st.distinct_case(&[img.to_line().as_bytes(), opts.show().as_bytes()].concat());
@@ -194,6 +208,7 @@ pub fn oracle(ctx: &mut Ctx) {
             raw.add_icc_profile(p);
         }
         let o = opts.to_oxi();
+        note_current(&replay);
         let out = match catch(|| raw.create_optimized_png(&o)) {
             None => {
                 st.fail("panic", "create_optimized_png panicked".into(), replay);
